@@ -31,6 +31,10 @@ func vTargetsFromGroup(tg *targetgroup.Group, cfg *config.ScrapeConfig) ([]*SDTa
 	out := make([]*SDTargets, 0, len(tg.Targets))
 	for _, ls := range tg.Targets {
 		addr := string(ls[model.AddressLabel])
+		if addr == "" {
+			// like the real function: a target without an address makes the whole group fail
+			return nil, zzv.Err("no address")
+		}
 		pt := &scrape.Target{}
 		vKind[pt] = ls["drop"] != "1"
 		out = append(out, &SDTargets{Job: cfg.JobName, PromTarget: pt, ShardTarget: &target.Target{Hash: vHashOfAddr(addr)}})
@@ -133,6 +137,36 @@ func vIdentical(a, b []*SDTargets) bool {
 		}
 	}
 	return true
+}
+
+// VDiscBadGroup (C17): a group that cannot be translated (a target without an address) is skipped
+// on its own: the job's other groups - before and after it in the update - still arrive.
+func VDiscBadGroup() {
+	m := New(vLogger())
+	_ = m.ApplyConfig(vConfig("j1"))
+	good := func(src string, h int) *targetgroup.Group {
+		return &targetgroup.Group{Source: src, Targets: []model.LabelSet{{model.AddressLabel: model.LabelValue("h" + zzv.Itoa(h) + ":80")}}}
+	}
+	bad := &targetgroup.Group{Source: "bad", Targets: []model.LabelSet{{"foo": "bar"}}}
+	var gs []*targetgroup.Group
+	pos := zzv.Choose("bad.position", 3)
+	switch pos {
+	case 0:
+		gs = []*targetgroup.Group{bad, good("a", 1), good("b", 2)}
+	case 1:
+		gs = []*targetgroup.Group{good("a", 1), bad, good("b", 2)}
+	default:
+		gs = []*targetgroup.Group{good("a", 1), good("b", 2), bad}
+	}
+	ret := m.translateTargets(map[string][]*targetgroup.Group{"j1": gs})
+	a := m.ActiveTargets()
+	kept := len(a["j1"]) == 2 && len(ret["j1"]) == 2
+	if zzv.Symbolic() {
+		kept = kept && vSameList(a["j1"], []uint64{1, 2}) && vSameList(ret["j1"], []uint64{1, 2})
+	}
+	zzv.Assert("C17.badgroup.others.kept", kept)
+	zzv.Observe("badgroup", pos, len(a["j1"]))
+	zzv.Cover("badgroup.end")
 }
 
 // VDisc (C17): a first update, then one step (an update, or a reload that keeps / removes /
